@@ -188,6 +188,8 @@ func (x *c06Run) menu() []string {
 			m = append(m, fmt.Sprintf("settings %d", v))
 		}
 	}
+	// a SETTINGS frame that does not mention the initial window must change no window
+	m = append(m, "othersettings")
 	for i := range x.ids {
 		if !x.rst[i] && x.fin[i] {
 			m = append(m, fmt.Sprintf("rst %d", i))
@@ -216,6 +218,8 @@ func (x *c06Run) apply(ev string) *fw.Violation {
 		fmt.Sscanf(ev, "wu %d %d", &a, &b)
 		x.l.stream[x.ids[a]] += int64(b)
 		h.SendFrames(peer.WindowUpdate(x.ids[a], uint32(b)))
+	case ev == "othersettings":
+		h.SendFrames(peer.Settings(peer.Setting{ID: peer.SHeaderTableSize, Val: 4096}, peer.Setting{ID: peer.SMaxFrameSize, Val: 16384}))
 	case strings.HasPrefix(ev, "settings"):
 		fmt.Sscanf(ev, "settings %d", &a)
 		x.l.settings(uint32(a))
@@ -315,6 +319,8 @@ func runC06(c *fw.Ctx) {
 	cfgs := []c06Cfg{
 		{0, []int{3}, []bool{false}}, {1, []int{6}, []bool{true}}, {5, []int{6, 3}, []bool{false, false}}, {1, []int{3, 1}, []bool{true, false}},
 		{5, []int{16385}, []bool{false}}, {0, []int{0, 3}, []bool{true, true}},
+		// three streams blocked on the connection window alone (stream windows are large)
+		{70000, []int{6, 6, 6}, []bool{false, false, false}},
 	}
 	depth := 4
 	if thorough {
